@@ -39,3 +39,5 @@ else
   echo "PATCH DOES NOT APPLY to /repo HEAD" | tee -a "$LOG"
 fi
 echo "== done" | tee -a "$LOG"
+# rebuild the harness on the clean tree: the binaries under /verif/target were just built against the patched sources
+(cd /verif/harness && CARGO_NET_OFFLINE=true cargo build --offline --release -p h_uplc -p h_lang -p h_proj >/dev/null 2>&1)
